@@ -160,6 +160,18 @@ impl<T: Clone> Clone for Range<T> {
 //@@ fn src/lib.rs Range::width props=C05 ret=r external_body
 //@@ sig
     requires self.wf(),
+    ensures
+        //# C05.width  (unit range proves `r == sw()`: the width of a non-empty range, 0 for the empty one)
+        r == (if self.nonempty() { self.w() } else { 0 }),
+//@@ end
+// ASSUMED here (external_body), PROVED in unit range under the clause C05.height: Range::height (so that glue code which asks a range for
+// its number of rows -- e.g. a header-row guard written with `height()` -- is decided instead of being rejected as an unknown method)
+//@@ fn src/lib.rs Range::height props=C05 ret=r external_body
+//@@ sig
+    requires self.wf(),
+    ensures
+        //# C05.height
+        r == (if self.nonempty() { self.h() } else { 0 }),
 //@@ end
 // ASSUMED here (external_body), PROVED in unit range (clauses C05.sparse_*): Range::from_sparse. No precondition: the cells may come in
 // any order (row and column bounds are the minimum / maximum over all cells).
